@@ -47,6 +47,9 @@ def run(ctx: core.Ctx) -> int:
     alt = ctx.gen_json("Precedence", ctx.cfg_with("Sample_C04.cfg", "alt", SampleN=500 if q else 8000, D1="D1Alt", D2="D2Alt"),
                        workers=1, extra=["-seed", str(ctx.seed + 12)])
     sample += alt
+    # ... and with a directory whose name holds a line break
+    sample += ctx.gen_json("Precedence", ctx.cfg_with("Sample_C04.cfg", "nl", SampleN=300 if q else 4000, D2="D2Nl"),
+                           workers=1, extra=["-seed", str(ctx.seed + 13)])
     cases = [to_case(i + 1, g, ctx.seed) for i, g in enumerate(gens + sample)]
     # 3. replay
     for k_, c_ in enumerate(cases):
